@@ -26,7 +26,7 @@ def run_proofs(rep: Report, mods: List[str], keys: List[str], replays: Dict[str,
     counter-model natively (run inside the worker, so the search continues when a candidate does not reproduce).
     """
     replays = replays or {}
-    lock = load_lock().get(rep.property_id, {})
+    lock = {} if os.environ.get("PYVC_RELOCK") else load_lock().get(rep.property_id, {})  # --relock rebuilds the list from scratch
     res = verify_all(mods, keys, workers=workers, timeout_ms=timeout_ms, replays=replays)
     seen_names = set()
     for key in keys:
